@@ -86,7 +86,7 @@ pub fn succeeding_plans(msg: &Msg) -> BoxedStrategy<Vec<UnitPlan>> {
 pub fn err_spec() -> impl Strategy<Value = ErrSpec> {
     prop_oneof![
         // standard codes of every class
-        4 => (prop_oneof![Just(-100i16), Just(-101), Just(-108), Just(-109), Just(-113), Just(-200), Just(-221), Just(-222), Just(-224), Just(-240), Just(-300), Just(-310), Just(-350), Just(-400), Just(-410), Just(-500), Just(-600), Just(-700), Just(-800), Just(-225)], any::<bool>())
+        4 => (prop_oneof![Just(-100i16), Just(-101), Just(-108), Just(-109), Just(-113), Just(-200), Just(-221), Just(-222), Just(-224), Just(-240), Just(-300), Just(-310), Just(-350), Just(-400), Just(-410), Just(-500), Just(-600), Just(-700), Just(-800), Just(-225), Just(0)], any::<bool>())
             .prop_map(|(code, extended)| ErrSpec { code, custom: false, extended }),
         2 => (any::<i16>(), any::<bool>()).prop_map(|(code, extended)| ErrSpec { code, custom: true, extended }),
         1 => (1i16..1000, any::<bool>()).prop_map(|(code, extended)| ErrSpec { code, custom: true, extended }),
